@@ -15,7 +15,7 @@ static tp_p g_tp;
 static size_t g_pool;
 static rec_t *g_recs; static size_t g_nrecs; static rec_t g_late[64];
 static volatile uint64_t g_cb_count, g_ok_sends, g_senders_done, g_barrier_cnt, g_ok_sends_late, g_late_cb;
-static sem_t g_gate_sem;
+static sem_t g_gate_sem; static volatile uint64_t g_gate_in;
 
 /* ---- fault injection state */
 static int g_wfault_kind; static uint8_t *g_wfault_pos; static size_t g_wfault_max;
@@ -89,7 +89,8 @@ static void msg_cb(tpt_p tpt, void *udata) {
 static void gate_cb(tpt_p tpt, void *udata) {
 	(void)udata;
 	TM_LOG(EV_GATE, 0, tpt_get_num(tpt), 0, 0);
-	sem_wait(&g_gate_sem);
+	__atomic_add_fetch(&g_gate_in, 1, __ATOMIC_RELEASE);
+	while (sem_wait(&g_gate_sem) == -1 && errno == EINTR) ;
 	TM_LOG(EV_GATE, 1, tpt_get_num(tpt), 0, 0);
 }
 
@@ -137,6 +138,22 @@ static void *ext_sender(void *arg) {
 	return NULL;
 }
 static void pool_sender_cb(tpt_p tpt, void *udata) { sender_t *s = udata; s->self = tpt; sender_run(s); }
+
+/* sender that races tp_shutdown(): every destination, plain flags */
+static void *race_sender(void *arg) {
+	unsigned k; (void)arg;
+	tm_tid = 1900;
+	for (k = 0; k < 60; k++) {
+		rec_t *r = &g_late[k]; int lrc; uint64_t rnd = tm_rand();
+		uint32_t dst = (uint32_t)((rnd >> 16) % (g_pool + 1));
+		r->id = ((uint64_t)0xdd << 32) | k; r->dst = dst; r->flags = 0;
+		TM_LOG(EV_SEND_CALL, 0, r->id, dst, 2 /* shutdown may be under way: a refusal is legitimate */);
+		lrc = tpt_msg_send(dst == g_pool ? tp_thread_get_pvt(g_tp) : tp_thread_get(g_tp, dst), NULL, 0, msg_cb, r);
+		TM_LOG(EV_SEND_RET, 0, r->id, dst, lrc);
+		if (lrc == 0) __atomic_add_fetch(&g_ok_sends_late, 1, __ATOMIC_RELAXED);
+	}
+	return NULL;
+}
 
 int main(void) {
 	size_t len; uint8_t *c; vout_t o = {0}; vin_t in;
@@ -203,6 +220,58 @@ int main(void) {
 	for (i = 0; i < n_ext; i++) pthread_join(thr[i], NULL);
 	if (tm_wait_ge(&g_senders_done, nsend, 60000)) timeout = 1;
 	TM_LOG(EV_PHASE, 3, 0, 0, 0);
+	if (shutdown_behind_gate == 4) {
+		pthread_t lt; struct timespec ts = {0, (long)(tm_rand() % 400000)};
+		pthread_create(&lt, NULL, race_sender, NULL);
+		nanosleep(&ts, NULL);
+		tp_shutdown(g_tp);
+		pthread_join(lt, NULL);
+		tm_wait_ge(&g_late_cb, __atomic_load_n(&g_ok_sends_late, __ATOMIC_RELAXED), 5000);
+		TM_LOG(EV_PHASE, 4, 0, 0, 0);
+		tp_shutdown_wait(g_tp);
+		rc = tp_destroy(g_tp);
+		TM_LOG(EV_PHASE, 5, 0, 0, rc);
+		goto dump;
+	}
+	if (gate && shutdown_behind_gate >= 2) {
+		/* 2: the stop message is read in one batch together with a second gate message in front of it, so the worker
+		 *    is still RUNNING (blocked in the second gate) after its last read: sends made now are accepted (rc 0)
+		 *    and sit in the queue behind the batch that contains the stop message.
+		 * 3: (pool of one) messages accepted by the shared virtual thread are still queued when the shutdown starts.
+		 * 4: a sender thread races tp_shutdown() (perturbed between its running test and its queue write). */
+		unsigned k, mode = shutdown_behind_gate;
+		tpt_p d0 = tp_thread_get(g_tp, gate_dst), dv = tp_thread_get_pvt(g_tp);
+		if (tm_wait_ge(&g_gate_in, 1, 30000)) timeout = 1;
+		#define LATE_SEND(k_, dst_, tp_) do { rec_t *r = &g_late[k_]; int lrc; \
+			r->id = ((uint64_t)0xdd << 32) | (k_); r->dst = (dst_); r->flags = 0; \
+			TM_LOG(EV_SEND_CALL, 0, r->id, (dst_), 0); \
+			lrc = tpt_msg_send((tp_), NULL, 0, msg_cb, r); \
+			TM_LOG(EV_SEND_RET, 0, r->id, (dst_), lrc); \
+			if (lrc == 0) __atomic_add_fetch(&g_ok_sends_late, 1, __ATOMIC_RELAXED); } while (0)
+		if (mode == 2 && !timeout) {
+			tpt_msg_send(d0, NULL, 0, gate_cb, NULL);
+			tp_shutdown(g_tp);
+			for (k = 0; k < 20; k++) LATE_SEND(k, gate_dst, d0);
+			sem_post(&g_gate_sem);
+			if (tm_wait_ge(&g_gate_in, 2, 30000)) timeout = 1;
+			for (k = 20; k < 40; k++) LATE_SEND(k, gate_dst, d0);
+			sem_post(&g_gate_sem);
+		} else if (mode == 3 && !timeout) {
+			for (k = 0; k < 40; k++) LATE_SEND(k, (uint32_t)pool, dv);
+			tp_shutdown(g_tp);
+			sem_post(&g_gate_sem);
+		} else {
+			sem_post(&g_gate_sem);
+		}
+		if (timeout) TM_LOG(EV_TIMEOUT, 0, 0, 0, 0);
+		tm_wait_ge(&g_late_cb, __atomic_load_n(&g_ok_sends_late, __ATOMIC_RELAXED), 5000);
+		TM_LOG(EV_PHASE, 4, 0, 0, 0);
+		tp_shutdown(g_tp);
+		tp_shutdown_wait(g_tp);
+		rc = tp_destroy(g_tp);
+		TM_LOG(EV_PHASE, 5, 0, 0, rc);
+		goto dump;
+	}
 	if (gate && shutdown_behind_gate) {
 		/* the gated worker is still RUNNING and has not read its queue: request the shutdown now, then queue more
 		 * messages behind the stop message.  They are accepted (rc 0), so they must still be delivered. */
